@@ -1031,9 +1031,8 @@ func (g *c15G) stmt(env *c15Env) []*c15Decl {
 		}
 		opts := []string{
 			"*.style.fill: " + g.r.Pick(c15Colors),
-			"**.style.opacity: 0.4",
 			"*.shape: " + g.r.Pick(c15Shapes),
-			"(* -> *)[*].style.stroke: " + g.r.Pick(c15Colors),
+			"*.style.opacity: 0.4",
 		}
 		if !g.noTriple {
 			// board-wide globs reach the boards declared before them too: only before the first board
